@@ -46,20 +46,9 @@ pub fn migrate(from: &Path, mut to: Options, overwrite: bool, force_migrate: &[u
 	source_options.columns = source_meta.columns;
 
 	// Hashed keys and table entries are carried over as they are: the destination has to be in
-	// the format version of the source.
-	match Options::load_metadata(&to.path)? {
-		Some(dest_meta) =>
-			if dest_meta.version != source_meta.version {
-				return Err(Error::Migration("Source and dest format version mismatch".into()))
-			},
-		None => {
-			try_io!(std::fs::create_dir_all(&to.path));
-			to.write_metadata_with_version(&to.path, &source_meta.salt, Some(source_meta.version))?;
-		},
-	}
-
+	// the format version of the source. Both directories are locked before anything is written.
 	let mut source = Db::open(&source_options)?;
-	let mut dest = Db::open_or_create(&to)?;
+	let mut dest = Db::open_or_create_in_version(&to, source_meta.version)?;
 
 	let mut ncommits: u64 = 0;
 	let mut commit = CommitChangeSet::default();
@@ -84,7 +73,7 @@ pub fn migrate(from: &Path, mut to: Options, overwrite: bool, force_migrate: &[u
 			if !overwrite {
 				drop(dest);
 				copy_column(c, from, &to.path)?;
-				dest = Db::open_or_create(&to)?;
+				dest = Db::open_or_create_in_version(&to, source_meta.version)?;
 			}
 			continue
 		}
@@ -125,7 +114,7 @@ pub fn migrate(from: &Path, mut to: Options, overwrite: bool, force_migrate: &[u
 			commit = Default::default();
 			nb_commit = 0;
 			drop(dest);
-			dest = Db::open_or_create(&to)?; // This is needed to flush logs.
+			dest = Db::open_or_create_in_version(&to, source_meta.version)?; // This is needed to flush logs.
 			log::info!("Collection migrated {}, imported", c);
 
 			drop(dest);
@@ -162,7 +151,7 @@ pub fn migrate(from: &Path, mut to: Options, overwrite: bool, force_migrate: &[u
 				})?;
 			remove_tmp_dir()?;
 			source = Db::open(&source_options)?;
-			dest = Db::open_or_create(&to)?;
+			dest = Db::open_or_create_in_version(&to, source_meta.version)?;
 
 			log::info!("Collection migrated {}, migrated", c);
 		}
